@@ -608,7 +608,7 @@ def run(chk):
     if traces:
         chk.sample({'program': glist[len(glist) // 2][0], 'desc_after_last_op': traces[len(glist) // 2][-1]['desc']})
     # code -> spec: random programs beyond the catalogue
-    n = 400 if quick else 4000
+    n = 400 if quick else 3000
     seeds = [chk.seed * 1000003 + i for i in range(n)]
     rtraces = pool_map(_random_trace, seeds)
     phase('random')
